@@ -43,15 +43,15 @@ Proof.
 Qed.
 
 Section Dce.
-  Variables (w : world) (fuel : nat).
-  Notation exec := (exec Wrap w fuel).
-  Notation exec_block := (exec_block Wrap w fuel).
+  Variables (m : mode) (w : world) (fuel : nat).
+  Notation exec := (exec m w fuel).
+  Notation exec_block := (exec_block m w fuel).
 
   Definition sim (s Sn Sb : list name) (r1 r2 : res) : Prop :=
     match r1 with
     | RNext e1 t => exists e2, r2 = RNext e2 t /\ agree_on s Sn e1 e2
     | RBreak v e1 t => exists e2, r2 = RBreak v e2 t /\ agree_on s Sb e1 e2
-    | RStuck => True
+    | RStuck | ROvf => True
     | o => r2 = o
     end.
 
@@ -89,13 +89,14 @@ Section Dce.
     intros S s Hsc (Hnd & Hfr & Hint) e1 e2 tr Hag. cbn in Hsc. apply andb_prop in Hsc. destruct Hsc as [Ha Hb].
     cbn [dce_stmt] in *. destruct (negb (memb x s) && negb (is_divmod op)) eqn:E; cbn [fst snd exec_opt] in *.
     - apply andb_prop in E. destruct E as [E1 E2]. apply negb_true_iff in E1. apply memb_false in E1.
-      cbn. destruct (rt_binop op _ _) eqn:R.
+      cbn. destruct (chk m op && ovf op _ _); [exact I|]. destruct (rt_binop op _ _) eqn:R.
       + cbn. exists e2. split; auto. now apply agree_bind_left.
       + exfalso. destruct op; cbn in E2; try discriminate; cbn in R;
           repeat match type of R with (if ?c then _ else _) = _ => destruct c end; discriminate.
     - cbn.
       rewrite (agree_eval w _ _ _ _ a Hag Ha) by (intros y ->; rewrite !In_use_expr; auto).
       rewrite (agree_eval w _ _ _ _ b Hag Hb) by (intros y ->; rewrite !In_use_expr; auto).
+      destruct (chk m op && ovf op _ _); [exact I|].
       destruct (rt_binop op _ _); cbn; [|reflexivity].
       eexists. split; [reflexivity|]. apply agree_bind_both.
       eapply agree_on_sub; eauto. intros y Hy. rewrite !In_use_expr. auto.
@@ -201,7 +202,7 @@ Section Dce.
     - destruct o as [st'|]; cbn [exec_opt] in Hs; [|discriminate]. rewrite exec_block_cons, Hs. reflexivity.
     - destruct o as [st'|]; cbn [exec_opt] in Hs; [|discriminate]. rewrite exec_block_cons, Hs. reflexivity.
     - exact I.
-    - destruct o as [st'|]; cbn [exec_opt] in Hs; [|discriminate]. rewrite exec_block_cons, Hs. reflexivity.
+    - exact I.
     - destruct o as [st'|]; cbn [exec_opt] in Hs; [|discriminate]. rewrite exec_block_cons, Hs. reflexivity.
   Qed.
   Lemma sim_weaken s s' Sn Sn' Sb Sb' r1 r2 :
@@ -337,7 +338,6 @@ Section Dce.
       + now rewrite HQ1.
       + now rewrite HQ1.
       + now rewrite HQ1.
-      + now rewrite HQ1.
     - specialize (HQ2 e1 e2 tr Hag').
       destruct (exec_block s2 e1 tr) as [e1' tr'|v e1' tr'|tr'|tr'| | |]; cbn [sim] in *; auto.
       + destruct HQ2 as [e2' [-> Ha]]. eexists. split; [reflexivity|]. unfold bind_e2.
@@ -349,14 +349,13 @@ Section Dce.
       + now rewrite HQ2.
       + now rewrite HQ2.
       + now rewrite HQ2.
-      + now rewrite HQ2.
   Qed.
   (* two loops whose bodies and updates preserve a relation between the environments *)
   Definition step_sim (Iv K : env -> env -> Prop) (n1 n2 : env -> env) (r1 r2 : res) : Prop :=
     match r1 with
     | RNext e1 t => exists e2, r2 = RNext e2 t /\ Iv (n1 e1) (n2 e2)
     | RBreak v e1 t => exists e2, r2 = RBreak v e2 t /\ K e1 e2
-    | RStuck => True
+    | RStuck | ROvf => True
     | o => r2 = o
     end.
   Lemma loop_sim (Iv K : env -> env -> Prop) b1 b2 n1 n2 :
@@ -372,7 +371,7 @@ Section Dce.
     - rewrite Hstep. reflexivity.
     - rewrite Hstep. reflexivity.
     - exact I.
-    - rewrite Hstep. reflexivity.
+    - exact I.
     - rewrite Hstep. reflexivity.
   Qed.
 
@@ -437,8 +436,8 @@ Section Dce.
     assert (Hstep : forall e1 e2 tr, Inv e1 e2 ->
       step_sim Inv (agree_on s S) (bind_e2 w lvs) (bind_e2 w lvs2) (exec_block ss e1 tr) (exec_block ss' e2 tr)).
     { intros a1 a2 t HI. specialize (HQ a1 a2 t HI).
-      pose proof (frame_block Wrap w fuel ss a1 t) as Fr1.
-      pose proof (frame_block Wrap w fuel ss' a2 t) as Fr2.
+      pose proof (frame_block m w fuel ss a1 t) as Fr1.
+      pose proof (frame_block m w fuel ss' a2 t) as Fr2.
       destruct (exec_block ss a1 t) as [a1' t'|v a1' t'|t'|t'| | |]; cbn [sim step_sim] in *; auto.
       - destruct HQ as [a2' [E Ha]]. exists a2'. split; auto. rewrite E in Fr2. cbn in Fr2.
         intros x Hx Hsx. unfold bind_e2. rewrite !lookup_bind.
@@ -465,7 +464,6 @@ Section Dce.
     - now rewrite HL.
     - now rewrite HL.
     - now rewrite HL.
-    - now rewrite HL.
   Qed.
 
   Theorem dce_sim : (forall st, P st) /\ (forall ss, Q ss).
@@ -484,15 +482,19 @@ Section Dce.
   Qed.
 End Dce.
 
-(* every result but Stuck is reproduced exactly *)
+(* every result but Stuck is reproduced exactly (target semantics) *)
 Definition same_unless_stuck (o' o : outcome) : Prop := match o with Stuck => True | _ => o' = o end.
 
-Theorem dce_preserves w f args fuel :
-  wf_func f = true -> same_unless_stuck (sem Wrap w (dce f) args fuel) (sem Wrap w f args fuel).
+Lemma dce_sem_sim m w f args fuel :
+  wf_func f = true ->
+  match sem m w f args fuel with
+  | Stuck | Overflow => True
+  | o => sem m w (dce f) args fuel = o
+  end.
 Proof.
   unfold wf_func. intros H. apply andb_prop in H. destruct H as [H Hret]. apply andb_prop in H. destruct H as [Hnd Hsc].
   apply nodupb_NoDup in Hnd.
-  destruct (dce_sim w fuel) as [_ HQ].
+  destruct (dce_sim m w fuel) as [_ HQ].
   unfold sem, dce, init_env. cbn [f_params f_body f_ret].
   set (s0 := use_expr (f_ret f) []).
   assert (Hpre : pre (binders_l (f_body f)) (defs_l (f_body f)) (f_params f) s0).
@@ -503,13 +505,28 @@ Proof.
       exfalso. eapply (NoDup_app_disj _ _ x Hnd); eauto. }
   specialize (HQ (f_body f) (f_params f) s0 Hsc Hpre (combine (f_params f) args) (combine (f_params f) args) []
                  ltac:(intros x _ _; reflexivity)).
-  destruct (exec_block Wrap w fuel (f_body f) _ _) as [e1' t'|v e1' t'|t'|t'| | |]; cbn [sim same_unless_stuck] in *; auto.
+  destruct (exec_block m w fuel (f_body f) _ _) as [e1' t'|v e1' t'|t'|t'| | |]; cbn [sim] in *; auto.
   - destruct HQ as [e2' [-> Ha]]. f_equal. symmetry. eapply agree_eval; eauto.
     intros x E. unfold s0. rewrite In_use_expr. auto.
   - now rewrite HQ.
   - now rewrite HQ.
   - now rewrite HQ.
-  - now rewrite HQ.
+Qed.
+
+Theorem dce_preserves w f args fuel :
+  wf_func f = true -> same_unless_stuck (sem Wrap w (dce f) args fuel) (sem Wrap w f args fuel).
+Proof.
+  intros Hwf. pose proof (dce_sem_sim Wrap w f args fuel Hwf) as H.
+  destruct (sem Wrap w f args fuel) eqn:E; cbn; auto.
+  exfalso. unfold sem in E. destruct (wrap_not_ovf w fuel) as [_ Hn].
+  specialize (Hn (f_body f) (init_env f args) []). destruct (exec_block Wrap w fuel (f_body f) _ _); cbn in *; try discriminate; auto.
+Qed.
+
+(* in every checking mode a run that is Done stays the same run: DCE only removes statements *)
+Theorem dce_preserves_mode m w f args fuel v tr :
+  wf_func f = true -> sem m w f args fuel = Done v tr -> sem m w (dce f) args fuel = Done v tr.
+Proof.
+  intros Hwf Hs. pose proof (dce_sem_sim m w f args fuel Hwf) as H. rewrite Hs in H. exact H.
 Qed.
 
 (* the property's reading: a run without overflow / trap / type error is reproduced on the target *)
